@@ -115,6 +115,12 @@ Theorem C17_rescan_restart : forall H doff x,
 Proof. exact rescan_restart. Qed.
 Print Assumptions C17_rescan_restart.
 
+(** zck_clear_error between transfers keeps the session invariant (it touches neither file nor flags) *)
+Theorem C17_clear_error_keeps_invariant : forall H doff tab0 file0 x,
+  sess_inv H doff tab0 file0 x -> sess_inv H doff tab0 file0 (clear_error x).
+Proof. exact clear_error_sess_inv. Qed.
+Print Assumptions C17_clear_error_keeps_invariant.
+
 (** the contract is satisfiable by a realistic oracle: the literal matcher (the meaning of the
     patterns zchunk builds, compared with glibc regexec on every run) obeys it *)
 Theorem C17_lit_contract : rx_contract lit_exec.
